@@ -3,8 +3,8 @@
    N, k, valid (l,Bgbit) and (t,basebit)), and what delete releases is exactly what new requested.  Uninitialised reads,
    use-after-free and the real heap are observed by AddressSanitizer / memcheck / the interposed allocator, not proved. *)
 From Coq Require Import ZArith List Lia Permutation.
-From TV Require Import Base.Int32 Model.Numeric Model.Lwe Model.Poly Model.Tlwe Model.Decomp Model.KeySwitch Model.Bootstrap Model.Ledger
-  Proofs.Lwe Proofs.Poly Proofs.Tlwe Proofs.Decomp Proofs.KeySwitch Proofs.Bootstrap Proofs.Ledger.
+From TV Require Import Base.Int32 Model.Numeric Model.Lwe Model.Poly Model.Tlwe Model.Decomp Model.KeySwitch Model.Bootstrap Model.Ledger Model.KaraMem
+  Proofs.Lwe Proofs.Poly Proofs.Tlwe Proofs.Decomp Proofs.KeySwitch Proofs.Bootstrap Proofs.Ledger Proofs.KaraMem.
 Import ListNotations.
 Local Open Scope Z_scope.
 
@@ -53,10 +53,29 @@ Theorem C16_bytes_balanced : forall t, total (blocks t) = total (release t).
 Proof. exact bytes_balanced. Qed.
 Print Assumptions C16_bytes_balanced.
 
+(* Karatsuba workspace (Karatsuba_aux carves Atemp, Btemp, Rtemp of every recursion level from one byte buffer): the recursion ends
+   within log2(size)+1 levels; the 16*N bytes its three callers allocate are enough for EVERY size; for power-of-two sizes every index of
+   every level is inside its array and the combination loops read only slots that were written *)
+Theorem C16_karatsuba_terminates : forall f size, 0 <= size < 2 ^ Z.of_nat f -> kara_use (S f) size <> None.
+Proof. exact kara_use_total. Qed.
+Print Assumptions C16_karatsuba_terminates.
+Theorem C16_karatsuba_workspace_fits : forall f size u, 0 <= size -> kara_use f size = Some u -> 0 <= u <= 16 * size.
+Proof. exact kara_use_bound. Qed.
+Print Assumptions C16_karatsuba_workspace_fits.
+Theorem C16_karatsuba_levels_safe_pow2 : forall f m, (m <= f)%nat -> kara_ok (S f) (2 ^ Z.of_nat m) = Some true.
+Proof. exact kara_ok_pow2. Qed.
+Print Assumptions C16_karatsuba_levels_safe_pow2.
+(* not for every size: N = 22 reaches an odd level above the threshold, whose loops read a slot nobody wrote (outside the property's
+   power-of-two domain; recorded, not a finding) *)
+Theorem C16_karatsuba_odd_level_refuted : kara_ok 64 22 = Some false.
+Proof. exact kara_ok_22_refuted. Qed.
+Print Assumptions C16_karatsuba_odd_level_refuted.
+
 (* the TGSW sample of the 128-bit set: 1 + 1 + 6 + 12 + 1 = 21 blocks, 24 + 6*32 + 6*32 + 12*4096 + 16 bytes *)
 Example C16_nonvacuous :
   let z := {| szLweSample := 24; szLweKey := 16; szPoly := 16; szTLweSample := 32; szTLweKey := 16; szTGswSample := 24; szTGswKey := 40;
               szKS := 48; szBK := 48; szTGswParams := 56; szLweParams := 24 |} in
   length (blocks (o_tgsw_sample z 1 3 1024)) = 21%nat /\ total (blocks (o_tgsw_sample z 1 3 1024)) = 49576 /\
-  bara_fill 1030 2048 (repeat 5 1030) <> None /\ vsub_asm true [10;20;30] [1;2;3] = Some [9;18;27].
+  bara_fill 1030 2048 (repeat 5 1030) <> None /\ vsub_asm true [10;20;30] [1;2;3] = Some [9;18;27] /\
+  kara_use 64 1024 = Some 16256 /\ kara_hw 64 1024 = Some 16252 /\ kara_ok 64 1024 = Some true.
 Proof. repeat split; try (vm_compute; reflexivity). vm_compute. discriminate. Qed.
